@@ -23,14 +23,13 @@ func mkConfC03(n int) cluster_table_conf.SubClusterBackend {
 	return conf
 }
 
-// findKeyC03 (native replay only) searches a key whose murmur3 hash has the residue the solver chose.
-func findKeyC03(want uint64, base uint64) []byte {
-	if base == 0 {
-		return []byte{0, 0, 0, 0}
-	}
+// findKeyC03 (native replay only) searches a key whose murmur3 hash agrees with the value the solver
+// chose modulo every base up to 12 (= 4 backends x weight 3), whatever total the code under test uses.
+func findKeyC03(want uint64) []byte {
+	const l = 27720 // lcm(1..12)
 	for x := uint32(0); ; x++ {
 		k := []byte{byte(x), byte(x >> 8), byte(x >> 16), byte(x >> 24)}
-		if murmur3.Sum64(k)%base == want%base {
+		if murmur3.Sum64(k)%l == want%l {
 			return k
 		}
 	}
@@ -44,7 +43,6 @@ func slbC03(algo int) {
 	elig := make([]bool, 4)
 	bk := make([]*backend.BfeBackend, 4) // identity before the call (stickyBalance sorts the list in place)
 	any, negAvail := false, false
-	totalW := 0
 	for i := 0; i < n; i++ {
 		wt := vrt.Int("w")
 		cur := vrt.Int("cur")
@@ -63,9 +61,6 @@ func slbC03(algo int) {
 		backend.VerifHelpSetState(brr.backends[i].backend, av, c)
 		elig[i] = av && wt > 0
 		bk[i] = brr.backends[i].backend
-		if elig[i] {
-			totalW += wt
-		}
 		any = any || elig[i]
 		negAvail = negAvail || (av && wt < 0)
 	}
@@ -79,7 +74,7 @@ func slbC03(algo int) {
 	if algo == WrrSticky {
 		key = vrt.Bytes("key", 4)
 		if !vrt.Symbolic() {
-			key = findKeyC03(vrt.U64("murmur"), uint64(totalW))
+			key = findKeyC03(vrt.U64("murmur"))
 		}
 	}
 	b, err := brr.Balance(algo, key)
